@@ -157,28 +157,35 @@ func (d *vDebRun) send(ch chan reloadEvent, reapply bool, c int) {
 	d.mu.Unlock()
 }
 
-// state of the trace as the property sees it
+// state of the trace as the property sees it: is a reload call still owed?
 func (d *vDebRun) settled() (bool, int) {
 	last := -1
 	lastOKCfg := -1
 	lastCallOK := true
-	haveCall := false
+	need := false
 	for _, it := range d.trace {
 		switch it.K {
 		case "TS":
+			if it.C != last {
+				need = true
+			}
 			last = it.C
+		case "TR":
+			if last != -1 {
+				need = true
+			}
 		case "TB":
-			haveCall = true
 			lastCallOK = it.OK
 			if it.OK {
 				lastOKCfg = it.C
+				need = false
 			}
 		}
 	}
 	if last == -1 {
-		return !haveCall || lastCallOK, len(d.trace)
+		return lastCallOK, len(d.trace)
 	}
-	return lastCallOK && lastOKCfg == last, len(d.trace)
+	return !need && lastCallOK && lastOKCfg == last, len(d.trace)
 }
 
 // wait until the trace is settled and silent for `calm`, at most `patience`
@@ -229,7 +236,7 @@ func vDebRunScenario(sc vDebScenario) (*vDebRun, map[string]int) {
 	retry := time.Duration(sc.RetryUs) * time.Microsecond
 	debouncer(body, ch, interval, retry, log.NewNopLogger())
 	defer close(ch)
-	calm := 4 * (interval + retry)
+	calm := 4*(interval+retry) + 60*time.Millisecond // generous: a loaded machine delays timers by tens of ms
 	patience := 6 * time.Second
 
 	// phase 1: concurrent scripted submitters
@@ -269,7 +276,6 @@ func vDebRunScenario(sc vDebScenario) (*vDebRun, map[string]int) {
 		d.mu.Unlock()
 		// phase 2b: a re-apply request while nothing is pending must reload the same configuration once
 		d.send(ch, true, 0)
-		time.Sleep(calm)
 		d.quiet(calm, patience)
 		d.mu.Lock()
 		info["reapply_calls"] = d.calls - n0
@@ -500,7 +506,7 @@ func TestVerifDeb(t *testing.T) {
 		info map[string]int
 	}
 	results := make([]res, n)
-	sem := make(chan struct{}, 6)
+	sem := make(chan struct{}, 12)
 	var wg sync.WaitGroup
 	for i := range scs {
 		wg.Add(1)
